@@ -177,7 +177,80 @@ def r22_3(ctx):
     return rr
 
 
-RULES = [r22_1, r22_2, r22_3]
+def _py_signature(fnode, drop_self):
+    """(positional names, required positional count, keyword-only names, required keyword-only, has *args, has **kw)."""
+    a = fnode.args
+    pos = [x.arg for x in a.posonlyargs + a.args]
+    if drop_self and pos:
+        pos = pos[1:]
+    nreq = len(pos) - len(a.defaults)
+    kwonly = [x.arg for x in a.kwonlyargs]
+    kwreq = [x.arg for x, d in zip(a.kwonlyargs, a.kw_defaults) if d is None]
+    return pos, max(nreq, 0), kwonly, kwreq, a.vararg is not None, a.kwarg is not None
+
+
+def r22_4(ctx):
+    rr = RuleResult(
+        "R22.4", "COVER",
+        "every call of a class or function defined in dask_array/_frisky (the wrappers of the native layers: code the baseline suite never executes, because importing them needs the extension) matches the callee's Python signature",
+        min_instances=40,
+    )
+    repo = ctx.repo
+    n = 0
+    for m in repo.units:
+        if ".tests" in m.name:
+            continue
+        for f in m.functions.values():
+            if f.parent is not None:
+                continue
+            for call in ast.walk(f.node):
+                if not isinstance(call, ast.Call) or not isinstance(call.func, (ast.Name, ast.Attribute)):
+                    continue
+                try:
+                    r = repo.resolve_expr(call.func, m, f)
+                except Exception:
+                    r = None
+                if not r or r[0] not in ("class", "func"):
+                    continue
+                if r[0] == "class":
+                    ci = r[1]
+                    if not ci.module.name.startswith("dask_array._frisky"):
+                        continue
+                    hit = repo.class_attr(ci, "__init__")
+                    if not hit or not hasattr(hit[1], "node"):
+                        continue
+                    target, drop_self, what = hit[1], True, f"{ci.name}(...)"
+                else:
+                    target = r[1]
+                    if not target.module.name.startswith("dask_array._frisky") or target.cls is not None and not (isinstance(call.func, ast.Attribute) and target.kind in ("staticmethod", "classmethod")):
+                        continue
+                    drop_self, what = target.kind == "classmethod", f"{target.qualname}(...)"
+                pos, nreq, kwonly, kwreq, has_va, has_kw = _py_signature(target.node, drop_self)
+                args = [a for a in call.args if not isinstance(a, ast.Starred)]
+                star = any(isinstance(a, ast.Starred) for a in call.args) or any(k.arg is None for k in call.keywords)
+                kws = [k.arg for k in call.keywords if k.arg is not None]
+                n += 1
+                c = f"{f.construct}::{what}"
+                rr.inst(c, callee=target.construct, positional=len(args), keywords=kws, starred=star)
+                if star:
+                    continue
+                if len(args) > len(pos) and not has_va:
+                    ctx.finding(rr, c, f"{what} is called with {len(args)} positional arguments but {target.qualname} takes {len(pos)} ({pos}): TypeError wherever the native extension is built (the baseline suite never runs this call)", func=f, node=call)
+                    continue
+                bound = set(pos[: len(args)])
+                for k in kws:
+                    if k not in pos and k not in kwonly and not has_kw:
+                        ctx.finding(rr, c, f"{what} is called with keyword {k!r}, which {target.qualname} does not accept", func=f, node=call)
+                    elif k in bound:
+                        ctx.finding(rr, c, f"{what} receives {k!r} both positionally and by keyword", func=f, node=call)
+                missing = [p for p in pos[:nreq] if p not in bound and p not in kws] + [k for k in kwreq if k not in kws]
+                if missing:
+                    ctx.finding(rr, c, f"{what} is called without {missing}, which {target.qualname} requires: TypeError wherever the native extension is built (the baseline suite never runs this call)", func=f, node=call)
+    need(n >= 40, "resolved calls into dask_array/_frisky")
+    return rr
+
+
+RULES = [r22_1, r22_2, r22_3, r22_4]
 
 LEVEL_TEXT = (
     "Static decision of one structural clause of C22: the interface between the Python wrappers (dask_array/_frisky) and the Rust "
